@@ -6,6 +6,7 @@ import Sylvia.Model.Runtime
 import Sylvia.Model.Reply
 import Sylvia.Model.Facts
 import Sylvia.Model.Validate
+import Sylvia.Model.QueryResponses
 /-! Driver operations over the current program. -/
 namespace Driver
 open Sylvia Gen
@@ -394,6 +395,114 @@ def opValidate (rest : String) : String :=
       if rules.isEmpty then "clean" else "dirty"
   | _ => "bad-op"
 
+def lastSeg (t : String) : String := ((t.splitOn "::").getLast?).getD t
+
+/-- BTreeMap<String, _>: sorted by key, a later entry replaces an earlier one -/
+def collectSorted (es : List (String × String)) : List (String × String) :=
+  (es.foldl (fun acc e => Serde.insertSorted e.1 (.str e.2) acc) []).map fun (k, v) => (k, match v with | .str s => s | _ => "")
+
+def showTable (es : List (String × String)) : String :=
+  ",".intercalate ((collectSorted es).map fun (k, t) => k ++ "=" ++ lastSeg t ++ "/true")
+
+def opQresp (st : State) (rest : String) : String :=
+  let p := progOf st
+  if rest == "w" then showTable (QueryResponses.contractTable p)
+  else
+    let i := rest.toNat?.getD 0
+    match (Gen.partMethods .query p)[i]? with
+    | some ms => showTable (ms.map fun m => (Gen.wireName m, QueryResponses.respText m))
+    | none => "bad-op"
+
+def opAnyOf (st : State) (rest : String) : String :=
+  match kindOfWord rest with
+  | some k => ",".intercalate (QueryResponses.anyOf k (progOf st))
+  | none => "bad-op"
+
+-- ------------------------------------------------------------------------------------------------
+-- remote helpers
+-- ------------------------------------------------------------------------------------------------
+/-- the document a constructor call serialises to (canonical argument values), with the method it belongs to -/
+def docOf (st : State) (k : Kind) (part : Nat) (method : String) (vals : List Json) : Option (Json × Method) :=
+  let p := progOf st
+  let ms := ((Gen.partMethods k p)[part]?).getD []
+  match ms.find? (fun m => Casing.toString m.name == method) with
+  | some m =>
+    let specs := m.args.map Gen.fieldSpec
+    if specs.length != vals.length then none else
+    ((specs.zip vals).mapM fun ((f : Serde.FieldSpec), v) => (Serde.decodeVal false f.ty v).map fun v' => (f.name, v')).map fun fs =>
+      (Json.obj [(Gen.wireName m, .obj fs)], m)
+  | none => none
+
+def fundsText (amount : String) : String := if amount == "0" then "" else amount ++ "utok"
+
+def opXh (st : State) (rest : String) : String :=
+  match splitN rest 10 with
+  | [part, _via, method, addr, amount, fail, sender, height, seed, json] =>
+    match parseJson json with
+    | some (.arr vals) =>
+      match docOf st .exec part.toNat! method vals with
+      | some (doc, _) =>
+        let r : Runtime.Remote Unit := { addr := utf8OfHex addr }
+        let m := Runtime.executorBuild r [fundsText amount] doc.render
+        let c : Dispatch.CtxIn := { sender := sender, funds := amount, height := height, seed := seed, fail := fail }
+        "execute addr=" ++ m.contractAddr ++ " funds=" ++ m.funds ++ " body=" ++ m.body ++ " => "
+          ++ Dispatch.showOutcome (progOf st) (Dispatch.route (progOf st) .exec doc c)
+      | none => "err bad-args"
+    | _ => "bad-op"
+  | _ => "bad-op"
+
+def opQh (st : State) (rest : String) : String :=
+  match splitN rest 7 with
+  | [part, _via, method, addr, height, seed, json] =>
+    match parseJson json with
+    | some (.arr vals) =>
+      match docOf st .query part.toNat! method vals with
+      | some (doc, _) =>
+        let c : Dispatch.CtxIn := { sender := "s", funds := "0", height := height, seed := seed, fail := "-" }
+        "addr=" ++ utf8OfHex addr ++ " body=" ++ doc.render ++ " => "
+          ++ Dispatch.showOutcome (progOf st) (Dispatch.route (progOf st) .query doc c)
+      | none => "err bad-args"
+    | _ => "bad-op"
+  | _ => "bad-op"
+
+def settersOf (spec : String) : List Runtime.Setter × Option String :=
+  (spec.splitOn ";").foldl (fun (acc : List Runtime.Setter × Option String) part =>
+    match part.splitOn ":" with
+    | ["l", v] => (acc.1 ++ [.label (utf8OfHex v)], acc.2)
+    | ["a", v] => (acc.1 ++ [.admin (utf8OfHex v)], acc.2)
+    | ["f", v] => (acc.1 ++ [.funds (fundsText v)], acc.2)
+    | ["s", v] => (acc.1, some v)
+    | _ => acc) ([], none)
+
+def opIb (st : State) (rest : String) : String :=
+  match splitN rest 3 with
+  | [code, spec, json] =>
+    let p := progOf st
+    match Gen.variantsOf .instantiate p.contract.methods, parseJson json with
+    | m :: _, some (.arr vals) =>
+      let specs := m.args.map Gen.fieldSpec
+      if specs.length != vals.length then "bad-args" else
+      match (specs.zip vals).mapM fun ((f : Serde.FieldSpec), v) => (Serde.decodeVal false f.ty v).map fun v' => (f.name, v') with
+      | some fs =>
+        let (ss, salt) := settersOf spec
+        let b := ss.foldl Runtime.InstBuilder.set { msg := (Json.obj fs).render, codeId := code.toNat! }
+        let out := match salt with | some s => b.build2 s | none => b.build
+        (match out.salt with | some _ => "instantiate2" | none => "instantiate") ++ " code=" ++ toString out.codeId
+          ++ " admin=" ++ out.admin.getD "-" ++ " label=" ++ hexOfString out.label ++ " funds=" ++ out.funds
+          ++ (match out.salt with | some s => " salt=" ++ s | none => "") ++ " body=" ++ out.msg
+      | none => "bad-args"
+    | _, _ => "bad-op"
+  | _ => "bad-op"
+
+def opAdm (rest : String) : String :=
+  match splitN rest 2 with
+  | [addr, new] =>
+    let r : Runtime.Remote Unit := { addr := utf8OfHex addr }
+    let one := if new == "-" then (match r.clearAdmin with | .clear a => "clear_admin addr=" ++ a | _ => "")
+               else (match r.updateAdmin (utf8OfHex new) with | .update a n => "update_admin addr=" ++ a ++ " admin=" ++ n | _ => "")
+    one ++ " | " ++ one
+  | _ => "bad-op"
+
 def step (st : State) (line : String) : State × Option String :=
   let (op, rest) := splitOp line
   match op with
@@ -408,6 +517,12 @@ def step (st : State) (line : String) : State × Option String :=
   | "reset" => ({}, some "ok")
   | "ep" => (st, some (opEp st))
   | "strip" => (st, some (opStrip rest))
+  | "xh" => (st, some (opXh st rest))
+  | "qh" => (st, some (opQh st rest))
+  | "ib" => (st, some (opIb st rest))
+  | "adm" => (st, some (opAdm rest))
+  | "qresp" => (st, some (opQresp st rest))
+  | "anyof" => (st, some (opAnyOf st rest))
   | "facts" => (st, some (opFacts st rest))
   | "validate" => (st, some (opValidate rest))
   | "rids" => (st, some (opRids st))
